@@ -314,4 +314,61 @@ func init() {
 			New:    "\t\tGroupKind: schema.GroupKind{\n\t\t\tGroup: ownerGVK.Group,\n\t\t\tKind:  ownerGVK.Version,\n\t\t},\n",
 			Expect: []string{"C12.R2@(*internal/dynamiccache.Cache).ownerRef"}},
 	)
+	// ---- round seven (X5): blocks of Watch / Free extracted into error-returning helpers. The
+	// normalisation pre-pass merges such a helper into its caller (its returns meet in one block whose
+	// error Phi the caller tests); a helper with a defer stays in place and is judged through its
+	// summary (R4: rollback before every return that may carry an error; R5: owner set, owner
+	// reference and the loop over the kinds are those of the single call site).
+	const startBlock = "\t\t// Create/Get Informer\n\t\tinformer, _, err := c.informerMap.Get(ctx, gvk, uns)\n\t\tif err != nil {\n\t\t\tc.rollbackWatch(ctx, gvk)\n\t\t\treturn fmt.Errorf(\"getting informer from InformerMap: %w\", err)\n\t\t}\n\n\t\t// ensure to add all event handlers to the new informer\n\t\tif err := c.cacheSource.handleNewInformer(informer); err != nil {\n\t\t\tc.rollbackWatch(ctx, gvk)\n\t\t\treturn fmt.Errorf(\"registering EventHandlers for %v: %w\", gvk, err)\n\t\t}\n"
+	const viaStart = "\t\tif err := c.startInformer(ctx, gvk, uns); err != nil {\n\t\t\treturn err\n\t\t}\n"
+	const rollbackDoc = "// rollbackWatch forgets a GVK whose informer could not be started or did not get its event handlers.\n"
+	const withDefer = "\tdefer logr.FromContextOrDiscard(ctx).V(1).Info(\"informer start attempted\")\n"
+	const getFailed = "\t\tc.rollbackWatch(ctx, gvk)\n\t\treturn fmt.Errorf(\"getting informer from InformerMap: %w\", err)\n"
+	const handlersFailed = "\t\tc.rollbackWatch(ctx, gvk)\n\t\treturn fmt.Errorf(\"registering EventHandlers for %v: %w\", gvk, err)\n"
+	startHelper := func(pre, onGetErr, onHandlersErr string) []Edit {
+		return []Edit{{File: cache, Old: rollbackDoc, New: "func (c *Cache) startInformer(ctx context.Context, gvk schema.GroupVersionKind, uns *unstructured.Unstructured) error {\n" + pre +
+			"\tinformer, _, err := c.informerMap.Get(ctx, gvk, uns)\n\tif err != nil {\n" + onGetErr + "\t}\n\tif err := c.cacheSource.handleNewInformer(informer); err != nil {\n" + onHandlersErr +
+			"\t}\n\treturn nil\n}\n\n" + rollbackDoc}}
+	}
+	const viaReleaseOwner = "\tfor gvk, refs := range c.informerReferences {\n\t\tif err := c.releaseOwner(ctx, log, owner, ownerRef, gvk, refs); err != nil {\n\t\t\treturn err\n\t\t}\n\t}\n"
+	releaseOwnerHelper := func(emptyTest string) []Edit {
+		return []Edit{{File: cache, Old: notStartedDoc, New: "func (c *Cache) releaseOwner(\n\tctx context.Context, log logr.Logger, owner client.Object, ownerRef OwnerReference,\n\tgvk schema.GroupVersionKind, refs map[OwnerReference]struct{},\n) error {\n" +
+			"\tdefer log.V(1).Info(\"owner released\")\n\tif _, ok := refs[ownerRef]; ok {\n\t\tdelete(refs, ownerRef)\n\n\t\tif " + emptyTest + " {\n\t\t\tlog.Info(\"releasing watcher\",\n\t\t\t\t\"kind\", gvk.Kind, \"group\", gvk.Group,\n\t\t\t\t\"ownerNamespace\", owner.GetNamespace())\n\n" +
+			"\t\t\tif err := c.informerMap.Delete(ctx, gvk); err != nil {\n\t\t\t\treturn fmt.Errorf(\"releasing informer for %v: %w\", gvk, err)\n\t\t\t}\n\n\t\t\tdelete(c.informerReferences, gvk)\n\t\t}\n\t}\n\treturn nil\n}\n\n" + notStartedDoc}}
+	}
+	addMutants(
+		Mutant{Prop: "C12", Name: "benign-watch-informer-start-in-helper", File: cache, Benign: true,
+			Old: startBlock, New: viaStart, More: startHelper("", getFailed, handlersFailed)},
+		Mutant{Prop: "C12", Name: "benign-watch-informer-start-in-helper-with-defer", File: cache, Benign: true,
+			Old: startBlock, New: viaStart, More: startHelper(withDefer, getFailed, handlersFailed)},
+		Mutant{Prop: "C12", Name: "r4-start-helper-no-rollback-when-informer-fails", File: cache,
+			Old: startBlock, New: viaStart, More: startHelper("", "\t\treturn fmt.Errorf(\"getting informer from InformerMap: %w\", err)\n", handlersFailed),
+			Expect: []string{"C12.R4@(*internal/dynamiccache.Cache).Watch#rollback-after-insert"}},
+		Mutant{Prop: "C12", Name: "r4-start-helper-with-defer-no-rollback-when-handlers-fail", File: cache,
+			Old: startBlock, New: viaStart, More: startHelper(withDefer, getFailed, "\t\treturn fmt.Errorf(\"registering EventHandlers for %v: %w\", gvk, err)\n"),
+			Expect: []string{"C12.R4@(*internal/dynamiccache.Cache).Watch#rollback-after-insert"}},
+		Mutant{Prop: "C12", Name: "r4-error-after-successful-start-helper", File: cache,
+			Old: startBlock, New: viaStart + "\t\tif err := ctx.Err(); err != nil {\n\t\t\treturn err\n\t\t}\n", More: startHelper(withDefer, getFailed, handlersFailed),
+			Expect: []string{"C12.R4@(*internal/dynamiccache.Cache).Watch#rollback-after-insert"}, Why: "the informer runs, but Watch reports failure and keeps the reference: the caller retries and never learns that events already flow"},
+		Mutant{Prop: "C12", Name: "r4-start-helper-error-tested-after-another-exit", File: cache,
+			Old: startBlock, New: "\t\terr := c.startInformer(ctx, gvk, uns)\n\t\tif cerr := ctx.Err(); cerr != nil {\n\t\t\treturn cerr\n\t\t}\n\t\tif err != nil {\n\t\t\treturn err\n\t\t}\n", More: startHelper("", getFailed, handlersFailed),
+			Expect: []string{"C12.R4@(*internal/dynamiccache.Cache).Watch#rollback-after-insert"}},
+		Mutant{Prop: "C12", Name: "r3-start-helper-with-defer-reports-rollback-as-success", File: cache,
+			Old: startBlock, New: viaStart, More: startHelper(withDefer, "\t\tc.rollbackWatch(ctx, gvk)\n\t\treturn nil\n", handlersFailed),
+			Expect: []string{"C12.R3@(*internal/dynamiccache.Cache).Watch#handlers-after-Get", "C12.R5@(*internal/dynamiccache.Cache).rollbackWatch"}, Why: "Watch reports success for a kind without informer; the rollback is no longer confined to failing Watch calls"},
+		Mutant{Prop: "C12", Name: "benign-free-loop-body-in-helper-with-defer", File: cache, Benign: true,
+			Old: freeLoop, New: viaReleaseOwner, More: releaseOwnerHelper("len(refs) == 0")},
+		Mutant{Prop: "C12", Name: "r5-release-owner-helper-stops-shared-informer", File: cache,
+			Old: freeLoop, New: viaReleaseOwner, More: releaseOwnerHelper("len(refs) >= 0"),
+			Expect: []string{"C12.R5@(*internal/dynamiccache.Cache).releaseOwner#informerMap.Delete", "C12.R5@(*internal/dynamiccache.Cache).releaseOwner#kind-removal"}},
+		Mutant{Prop: "C12", Name: "r5-release-owner-helper-error-dropped-by-free", File: cache,
+			Old: freeLoop, New: "\tfor gvk, refs := range c.informerReferences {\n\t\t_ = c.releaseOwner(ctx, log, owner, ownerRef, gvk, refs)\n\t}\n", More: releaseOwnerHelper("len(refs) == 0"),
+			Expect: []string{"C12.R5@(*internal/dynamiccache.Cache).releaseOwner#informerMap.Delete"}, Why: "a failed stop is reported as success while the kind keeps its empty reference: a later Watch never restarts the informer"},
+		Mutant{Prop: "C12", Name: "r1-release-owner-helper-under-read-lock", File: cache,
+			Old: freeLoop, New: viaReleaseOwner,
+			More: append(releaseOwnerHelper("len(refs) == 0"), Edit{File: cache,
+				Old: "error {\n\tc.informerReferencesMux.Lock()\n\tdefer c.informerReferencesMux.Unlock()\n\tdefer c.sampleMetrics(ctx)\n\n\tlog := logr.FromContextOrDiscard(ctx)\n\n\townerRef, err := c.ownerRef(owner)\n\tif err != nil {\n\t\treturn err\n\t}\n\n\tfor gvk",
+				New: "error {\n\tc.informerReferencesMux.RLock()\n\tdefer c.informerReferencesMux.RUnlock()\n\tdefer c.sampleMetrics(ctx)\n\n\tlog := logr.FromContextOrDiscard(ctx)\n\n\townerRef, err := c.ownerRef(owner)\n\tif err != nil {\n\t\treturn err\n\t}\n\n\tfor gvk"}),
+			Expect: []string{"C12.R1@(*internal/dynamiccache.Cache).releaseOwner"}},
+	)
 }
